@@ -999,7 +999,13 @@ fn mutate_once(r: &mut Rng, f: &mut Vec<Node>, cx: &Ctx) -> &'static str {
         7 => match pick_where(r, &|n| matches!(n, Node::Atom(a) if !is_number(a))) {
             Some(p) => {
                 let i = *p.last().unwrap();
-                let (rep, extra): (&str, &str) = match r.below(13) {
+                let (rep, extra): (&str, &str) = match r.below(17) {
+                    // cycles closed through a variable that an earlier definition referred to before it
+                    // existed (forward references), in several definition orders
+                    12 => ("$fc", "(defvar fa $fc fb $fa fc $fa)"),
+                    13 => ("$ga", "(defvar ga $gb gc $ga gb $gc)"),
+                    14 => ("$hb", "(defvar ha (multi $hc x) hb $ha hc (macro $hb))"),
+                    15 => ("$ic", "(defvar ia $ib ic $ia ib (concat $ic))"),
                     0 => ("$undefined-var", ""),
                     1 => ("@undefined-alias", ""),
                     2 => ("$selfv", "(defvar selfv $selfv)"),
